@@ -10,7 +10,7 @@
    by construction: allocation ids are never reused or removed from the heap. That the implementation's iterators really hold
    no borrow/lock across the body is what the correspondence checks (RefCell panics / lock probe / watchdog). *)
 From Gdsl.Model Require Import Spec Callback Mutation.
-From Gdsl.Proofs Require Import MutationProof.
+From Gdsl.Proofs Require Import MutationProof MutationBudget.
 
 (* instrumenting the callback does not change an edge loop *)
 Theorem c20_edge_loop_log_erase :
@@ -185,4 +185,88 @@ Theorem c20_order_terminates :
        Wf h -> fuel_bound h <= fuel -> snd (order_edges keqb cb d post fuel h c root) <> None.
 Proof. exact order_terminates. Qed.
 Print Assumptions c20_order_terminates.
+
+(* "terminates once the closure stops adding edges", in full: the closure may lengthen the walked list as long as a budget on its own state lasts (at most g entries per unit spent); the loop then ends within len - pos + g * budget steps. Subsumes the previous statement (budget 0) *)
+Theorem c20_edge_loop_terminates_once_growth_stops :
+  forall (K V E CB : Type) (cb : CB -> heap K V E -> edge E -> CB * heap K V E * bool) 
+         (d : dir) (u : nat) (budget : CB -> nat) (g : nat),
+       (forall (c : CB) (h : heap K V E) (e : edge E),
+        budget (fst (fst (cb c h e))) <= budget c /\
+        length (adj_of (snd (fst (cb c h e))) d u) <=
+        length (adj_of h d u) + g * (budget c - budget (fst (fst (cb c h e))))) ->
+       forall (fuel : nat) (c : CB) (h : heap K V E) (pos : nat),
+       length (adj_of h d u) - pos + g * budget c < fuel -> snd (edge_loop cb fuel d c h u pos) = true.
+Proof. exact edge_loop_terminates_budget. Qed.
+Print Assumptions c20_edge_loop_terminates_once_growth_stops.
+
+(* the same for every search (all kinds, directions, target / cycle): the closure may add edges AND allocate nodes while its budget lasts; an explicit fuel computed from the initial heap, g, gn and the budget suffices *)
+Theorem c20_traversal_terminates_once_growth_stops :
+  forall (K V E : Type) (keqb : K -> K -> bool) (CB : Type)
+         (cb : CB -> heap K V E -> edge E -> CB * heap K V E * bool),
+       KeqbSpec keqb ->
+       forall (d : dir) (budget : CB -> nat) (gn g : nat),
+       (forall (c : CB) (h : heap K V E) (e : edge E),
+        budget (fst (fst (cb c h e))) <= budget c /\
+        (exists ext : list (K * V),
+           nodes (snd (fst (cb c h e))) = nodes h ++ ext /\
+           length ext <= gn * (budget c - budget (fst (fst (cb c h e))))) /\
+        (forall w : nat,
+         length (adj_of (snd (fst (cb c h e))) d w) <=
+         length (adj_of h d w) + g * (budget c - budget (fst (fst (cb c h e)))))) ->
+       forall (vleb : V -> V -> bool) (k : kind) (fuel : nat) (h : heap K V E) (c : CB) 
+         (root : nat) (target : option K) (cyc : bool),
+       Wf h ->
+       fuel_bound h + gn * budget c + g * budget c * S (size h + gn * budget c) <= fuel ->
+       snd (run_search keqb cb vleb k d fuel h c root target cyc) <> OutOfFuel.
+Proof. exact traversal_terminates_budget. Qed.
+Print Assumptions c20_traversal_terminates_once_growth_stops.
+
+(* the same for the orderings *)
+Theorem c20_order_terminates_once_growth_stops :
+  forall (K V E : Type) (keqb : K -> K -> bool) (CB : Type)
+         (cb : CB -> heap K V E -> edge E -> CB * heap K V E * bool),
+       KeqbSpec keqb ->
+       forall (d : dir) (budget : CB -> nat) (gn g : nat),
+       (forall (c : CB) (h : heap K V E) (e : edge E),
+        budget (fst (fst (cb c h e))) <= budget c /\
+        (exists ext : list (K * V),
+           nodes (snd (fst (cb c h e))) = nodes h ++ ext /\
+           length ext <= gn * (budget c - budget (fst (fst (cb c h e))))) /\
+        (forall w : nat,
+         length (adj_of (snd (fst (cb c h e))) d w) <=
+         length (adj_of h d w) + g * (budget c - budget (fst (fst (cb c h e)))))) ->
+       forall (post : bool) (fuel : nat) (h : heap K V E) (c : CB) (root : nat),
+       Wf h ->
+       fuel_bound h + gn * budget c + g * budget c * S (size h + gn * budget c) <= fuel ->
+       snd (order_edges keqb cb d post fuel h c root) <> None.
+Proof. exact order_terminates_budget. Qed.
+Print Assumptions c20_order_terminates_once_growth_stops.
+
+(* non-vacuity: the closure add_first (duplicates the edge it is handed on its first c invocations, then stops) meets the budget hypotheses with budget = its counter, g = 2 *)
+Theorem c20_growing_closure_meets_budget :
+  forall (K V E : Type) (d : dir) (c : nat) (h : heap K V E) (e : edge E),
+       fst (fst (add_first c h e)) <= c /\
+       nodes (snd (fst (add_first c h e))) = nodes h /\
+       (forall w : nat,
+        length (adj_of (snd (fst (add_first c h e))) d w) <=
+        length (adj_of h d w) + 2 * (c - fst (fst (add_first c h e)))).
+Proof. exact add_first_budget. Qed.
+Print Assumptions c20_growing_closure_meets_budget.
+
+(* ... and it does lengthen a list, so the budget-free statements above did not cover it *)
+Theorem c20_growing_closure_excluded_before :
+  forall (K V E : Type) (h : heap K V E) (e : edge E),
+       length (outs (snd (fst (add_first 2 h e))) (esrc e)) = S (length (outs h (esrc e))).
+Proof. exact add_first_grows. Qed.
+Print Assumptions c20_growing_closure_excluded_before.
+
+(* ... and an actual run with exactly the fuel of the theorem: the search ends (Exhausted), the closure used up its budget, the degrees grew from [(1,1);(1,1)] to [(3,1);(1,3)] *)
+Theorem c20_growing_closure_run :
+  let r :=
+         run_search Nat.eqb (add_first (E:=nat)) Nat.leb KBfs DOut (fuel_bound h2 + 2 * 2 * S (size h2)) h2 2
+           0 None false in
+       snd r = Exhausted /\
+       s_cb (fst r) = 0 /\ degs h2 = [(1, 1); (1, 1)] /\ degs (s_heap (fst r)) = [(3, 1); (1, 3)].
+Proof. exact run_add_first_bfs. Qed.
+Print Assumptions c20_growing_closure_run.
 
